@@ -1165,6 +1165,16 @@ func bodyC32Limit(l *c32Limit, x *vkit.Ctx) {
 			x.Violationf("meta-not-tags", "advertised metadata %q is not the role %q", meta, tags["role"])
 			return
 		}
+		// ... and the node decodes its own advertisement like everybody else: what
+		// it lists for itself is the accepted set (the role only before protocol 3)
+		own := tags
+		if l.PV < 3 {
+			own = map[string]string{"role": tags["role"]}
+		}
+		if lm := n.Serf.LocalMember(); !eqLoose(lm.Tags, own) {
+			x.Violationf("own-tags-differ", "after the tag set was accepted (protocol %d, via create=%v) the node lists itself with %v, want %v", l.PV, l.ViaCreate, lm.Tags, own)
+			return
+		}
 	} else {
 		x.Label("limit:rejected")
 		if size <= memberlist.MetaMaxSize {
